@@ -11,6 +11,7 @@ import (
 	"golang.org/x/tools/go/cfg"
 
 	"rscheck/core"
+	"rscheck/pat"
 )
 
 // ---------------------------------------------------------------------------
@@ -127,6 +128,9 @@ type Graph struct {
 	Fset *token.FileSet
 	Body *ast.BlockStmt
 	NR   *NoReturn
+
+	switches map[*ast.CaseClause]*ast.SwitchStmt
+	Prog     *core.Program // set by Of/OfLit: enables predicate-helper expansion in EdgeFacts
 }
 
 // Point is a position in the graph: node I of block B. I == len(B.Nodes)
@@ -581,6 +585,7 @@ func Of(p *core.Program, fn *core.Fn) *Graph {
 		return v.(*Graph)
 	}
 	g := New(p.Fset, fn.Pkg.TypesInfo, fn.Decl.Body, NR(p))
+	g.Prog = p
 	p.Shared[key] = g
 	return g
 }
@@ -592,6 +597,7 @@ func OfLit(p *core.Program, info *types.Info, lit *ast.FuncLit) *Graph {
 		return v.(*Graph)
 	}
 	g := New(p.Fset, info, lit.Body, NR(p))
+	g.Prog = p
 	p.Shared[key] = g
 	return g
 }
@@ -599,14 +605,291 @@ func OfLit(p *core.Program, info *types.Info, lit *ast.FuncLit) *Graph {
 // ---------------------------------------------------------------------------
 // edge facts and locksets
 
+// switchOf maps a case clause to its switch statement (filled lazily per graph).
+func (g *Graph) switchOf(cc *ast.CaseClause) *ast.SwitchStmt {
+	if g.switches == nil {
+		g.switches = map[*ast.CaseClause]*ast.SwitchStmt{}
+		ast.Inspect(g.Body, func(n ast.Node) bool {
+			if sw, ok := n.(*ast.SwitchStmt); ok {
+				for _, cl := range sw.Body.List {
+					g.switches[cl.(*ast.CaseClause)] = sw
+				}
+			}
+			return true
+		})
+	}
+	return g.switches[cc]
+}
+
+// EdgeFacts returns the atomic facts implied by leaving block b through
+// successor succ: conjuncts/disjuncts of an if/for condition, and for a switch
+// case test the case expression itself (tagless switch) or `tag == label`
+// (tagged switch) on the matching edge. On the non-matching edge of a case
+// test the negated fact is returned.
+func (g *Graph) EdgeFacts(b *cfg.Block, succ int) []Fact {
+	c := CondOf(b)
+	if c == nil {
+		return nil
+	}
+	if isCaseTest(b) {
+		cc, _ := b.Succs[0].Stmt.(*ast.CaseClause)
+		if cc == nil || g == nil {
+			return nil
+		}
+		sw := g.switchOf(cc)
+		if sw == nil {
+			return nil
+		}
+		if sw.Tag == nil {
+			return Facts(c, succ == 0)
+		}
+		eq := &ast.BinaryExpr{X: sw.Tag, Op: token.EQL, Y: c, OpPos: c.Pos()}
+		return []Fact{{eq, succ == 0}}
+	}
+	return g.expandAll(Facts(c, succ == 0))
+}
+
+func (g *Graph) expandAll(fs []Fact) []Fact {
+	if g == nil || g.Prog == nil {
+		return fs
+	}
+	out := fs
+	for _, f := range fs {
+		out = append(out, g.expandFact(f)...)
+	}
+	return out
+}
+
+// expandFact: a fact about the result of a same-module predicate helper
+// (`ok(a, b)` is true/false, or `err := check(); err == nil`) implies the facts
+// that hold on every path of the helper producing that result, with the
+// helper's parameters replaced by the call's arguments.
+func (g *Graph) expandFact(f Fact) []Fact {
+	e := ast.Unparen(f.Expr)
+	var call *ast.CallExpr
+	outcome := ""
+	switch x := e.(type) {
+	case *ast.CallExpr:
+		call = x
+		if f.Val {
+			outcome = "true"
+		} else {
+			outcome = "false"
+		}
+	case *ast.BinaryExpr:
+		if x.Op != token.EQL && x.Op != token.NEQ {
+			return nil
+		}
+		var v ast.Expr
+		if core.IsNil(g.Info, x.Y) {
+			v = x.X
+		} else if core.IsNil(g.Info, x.X) {
+			v = x.Y
+		} else {
+			return nil
+		}
+		isNil := x.Op == token.EQL && f.Val || x.Op == token.NEQ && !f.Val
+		if !isNil {
+			return nil
+		}
+		id, ok := ast.Unparen(v).(*ast.Ident)
+		if !ok {
+			return nil
+		}
+		d := pat.DefOf(g.Info, id)
+		c2, ok := ast.Unparen(d).(*ast.CallExpr)
+		if d == nil || !ok {
+			return nil
+		}
+		call, outcome = c2, "nil"
+	default:
+		return nil
+	}
+	callee := core.CalleeFunc(g.Info, call)
+	if callee == nil || callee.Pkg() == nil {
+		return nil
+	}
+	fn := g.Prog.FnOf(callee)
+	if fn == nil || fn.Decl.Body == nil || fn.Pkg.TypesInfo != g.Info {
+		return nil // same package only (shared type information)
+	}
+	facts := helperFacts(g.Prog, fn, outcome)
+	if len(facts) == 0 {
+		return nil
+	}
+	// bind parameters (and the receiver) to the arguments
+	m := map[types.Object]ast.Expr{}
+	i := 0
+	for _, fl := range fn.Decl.Type.Params.List {
+		for _, nm := range fl.Names {
+			if i < len(call.Args) {
+				m[g.Info.Defs[nm]] = call.Args[i]
+			}
+			i++
+		}
+	}
+	if fn.Decl.Recv != nil && len(fn.Decl.Recv.List) == 1 && len(fn.Decl.Recv.List[0].Names) == 1 {
+		if sel, ok := ast.Unparen(call.Fun).(*ast.SelectorExpr); ok {
+			m[g.Info.Defs[fn.Decl.Recv.List[0].Names[0]]] = sel.X
+		}
+	}
+	var out []Fact
+	for _, hf := range facts {
+		out = append(out, Fact{Substitute(g.Info, hf.Expr, m), hf.Val})
+	}
+	return out
+}
+
+// helperFacts returns the atomic facts (over the helper's own parameters) that
+// hold on every path on which the loop-free helper fn produces outcome
+// ("true"/"false" for a bool result, "nil" for a nil error result).
+func helperFacts(p *core.Program, fn *core.Fn, outcome string) []Fact {
+	key := fmt.Sprintf("cfgq.hf.%p.%s", fn.Decl, outcome)
+	if v, ok := p.Shared[key]; ok {
+		return v.([]Fact)
+	}
+	p.Shared[key] = []Fact(nil) // recursion guard
+	info := fn.Pkg.TypesInfo
+	hg := Of(p, fn)
+	loop := false
+	ast.Inspect(fn.Decl.Body, func(n ast.Node) bool {
+		switch n.(type) {
+		case *ast.ForStmt, *ast.RangeStmt:
+			loop = true
+		}
+		return true
+	})
+	if loop {
+		return nil
+	}
+	var result [][]Fact
+	paths := 0
+	var walk func(b *cfg.Block, acc []Fact, seen map[*cfg.Block]bool)
+	walk = func(b *cfg.Block, acc []Fact, seen map[*cfg.Block]bool) {
+		if paths > 128 || seen[b] {
+			return
+		}
+		if len(b.Succs) == 0 {
+			paths++
+			if len(b.Nodes) == 0 {
+				return
+			}
+			ret, ok := b.Nodes[len(b.Nodes)-1].(*ast.ReturnStmt)
+			if !ok || len(ret.Results) == 0 {
+				return
+			}
+			last := ast.Unparen(ret.Results[len(ret.Results)-1])
+			facts := append([]Fact{}, acc...)
+			switch outcome {
+			case "true", "false":
+				want := outcome == "true"
+				if tv, ok := info.Types[last]; ok && tv.Value != nil {
+					if (tv.Value.String() == "true") != want {
+						return
+					}
+				} else {
+					facts = append(facts, Facts(last, want)...)
+				}
+			case "nil":
+				if !core.IsNil(info, last) {
+					if ClassifyReturn(info, fn.Decl.Body, ret) == RetErr {
+						return
+					}
+					// the value returned is nil on this outcome: `last != nil` is false
+					if _, isCall := last.(*ast.CallExpr); !isCall {
+						facts = append(facts, Fact{&ast.BinaryExpr{X: last, Op: token.NEQ, Y: ast.NewIdent("nil")}, false})
+					}
+				}
+			}
+			result = append(result, facts)
+			return
+		}
+		seen[b] = true
+		for si, t := range b.Succs {
+			nacc := acc
+			if len(b.Succs) == 2 {
+				nacc = append(append([]Fact{}, acc...), (&Graph{Info: info, Body: fn.Decl.Body, CFG: hg.CFG}).EdgeFacts(b, si)...)
+			}
+			walk(t, nacc, seen)
+		}
+		delete(seen, b)
+	}
+	walk(hg.CFG.Blocks[0], nil, map[*cfg.Block]bool{})
+	if len(result) == 0 || paths > 128 {
+		return nil
+	}
+	// intersection
+	var out []Fact
+	for _, f := range result[0] {
+		all := true
+		for _, other := range result[1:] {
+			found := false
+			for _, o := range other {
+				if o.Val == f.Val && pat.Same(info, o.Expr, f.Expr) {
+					found = true
+				}
+			}
+			all = all && found
+		}
+		if all {
+			out = append(out, f)
+		}
+	}
+	p.Shared[key] = out
+	return out
+}
+
+// Substitute returns a copy of e in which identifiers denoting the objects in
+// m are replaced by the mapped expressions.
+func Substitute(info *types.Info, e ast.Expr, m map[types.Object]ast.Expr) ast.Expr {
+	if len(m) == 0 || e == nil {
+		return e
+	}
+	switch x := e.(type) {
+	case *ast.Ident:
+		if r, ok := m[info.Uses[x]]; ok {
+			return &ast.ParenExpr{X: r}
+		}
+		return x
+	case *ast.ParenExpr:
+		return &ast.ParenExpr{X: Substitute(info, x.X, m)}
+	case *ast.BinaryExpr:
+		return &ast.BinaryExpr{X: Substitute(info, x.X, m), Op: x.Op, OpPos: x.OpPos, Y: Substitute(info, x.Y, m)}
+	case *ast.UnaryExpr:
+		return &ast.UnaryExpr{Op: x.Op, OpPos: x.OpPos, X: Substitute(info, x.X, m)}
+	case *ast.CallExpr:
+		args := make([]ast.Expr, len(x.Args))
+		for i, a := range x.Args {
+			args[i] = Substitute(info, a, m)
+		}
+		return &ast.CallExpr{Fun: Substitute(info, x.Fun, m), Lparen: x.Lparen, Args: args, Ellipsis: x.Ellipsis, Rparen: x.Rparen}
+	case *ast.SelectorExpr:
+		return &ast.SelectorExpr{X: Substitute(info, x.X, m), Sel: x.Sel}
+	case *ast.IndexExpr:
+		return &ast.IndexExpr{X: Substitute(info, x.X, m), Index: Substitute(info, x.Index, m)}
+	}
+	return e
+}
+
 // EdgeEstablishes reports whether leaving block b through successor succ
-// implies a fact accepted by match.
+// implies a fact accepted by match (if/for conditions only; use
+// Graph.Establishes to include switch case tests).
 func EdgeEstablishes(b *cfg.Block, succ int, match func(Fact) bool) bool {
 	c := CondOf(b)
 	if c == nil || b.Kind == cfg.KindSwitchNextCase || isCaseTest(b) {
 		return false
 	}
 	for _, f := range Facts(c, succ == 0) {
+		if match(f) {
+			return true
+		}
+	}
+	return false
+}
+
+// Establishes is EdgeEstablishes including switch case tests.
+func (g *Graph) Establishes(b *cfg.Block, succ int, match func(Fact) bool) bool {
+	for _, f := range g.EdgeFacts(b, succ) {
 		if match(f) {
 			return true
 		}
@@ -630,7 +913,7 @@ func (g *Graph) OnlyViaFact(target Point, match func(Fact) bool) (bool, []string
 	w := g.Path(Query{
 		From:      g.Entry(),
 		Target:    func(n ast.Node) bool { return n == tn },
-		AvoidEdge: func(b *cfg.Block, s int) bool { return EdgeEstablishes(b, s, match) },
+		AvoidEdge: func(b *cfg.Block, s int) bool { return g.Establishes(b, s, match) },
 	})
 	return w == nil, w
 }
